@@ -2,7 +2,9 @@
 
 Oracle (differential + metamorphic): the four tables (keyed by primary key, row order included, timing columns
 excluded, NaN-aware) and .experiment of Experiment.run under a generated configuration equal those of an in-process
-run of a *freshly built twin*; a second fresh in-process run equals the first.
+run of a *freshly built twin*; a second fresh in-process run equals the first, and so does the same in-process run inside a
+pristine forked process (expgen.run_fresh) - a reused worker is a process with a different evaluation history. No evaluation of
+a generated (evaluable by construction) triple may raise.
 
 Three drivers (DESIGN.md section 6, C01):
   real  - Experiment.run(processes=p, maxchunksperchild=c, maxtasksperchunk=t) with really spawned workers;
@@ -32,7 +34,7 @@ DESIGN_REF = "DESIGN.md section 6, C01"
 RULE = ("cases = (experiment descriptor, execution configuration[, schedule | line permutation]); descriptors are generated "
         "(1-3 base environments from seeded built-ins / LambdaSimulation over module-level functions / SupervisedSimulation, "
         "optional shared chunk()/cache() prefix, shuffle(n=k)/seed-list/noise-seed/logged fan-out, take; Random, BanditEpsilon, "
-        "BanditUCB, Corral and stateful / PMF / kwargs doubles; SequentialCB variants, RejectionCB on logged environments, custom "
+        "BanditUCB, Corral and stateful / PMF / kwargs doubles, on batched (.batch(6-8)) environments doubles of one class that are batch-capable or not per instance; SequentialCB variants, RejectionCB on logged environments, custom "
         "function and class evaluators; cross product or tuple list with generated sharing; experiment seed); a case is "
         "non-trivial when the experiment has >= 2 triples and (processes > 1 or maxchunksperchild > 0 or the line permutation "
         "is not the identity); distinct = distinct canonical JSON of the whole case")
@@ -48,20 +50,33 @@ ASSUMPTIONS = [
 FID_INPLACE = "C01-inplace-evaluation-leaks-through-shared-sublearner"
 
 # ----------------------------------------------------------------------------------------------- helpers
-def baseline(desc):
-    """snapshot of an in-process run of a fresh build, checked against a second fresh in-process run"""
+def no_failures(log, what):
+    bad = G.unexpected_failures(log)
+    require(not bad, f"{what}: an evaluation of an experiment whose triples are all evaluable by construction raised", log=[l[-300:] for l in bad[:2]])
+
+def baseline(desc, fresh=True):
+    """snapshot of an in-process run of a fresh build, checked against a second fresh in-process run and against the same
+    run in a pristine process (a worker is just a process with another evaluation history)"""
     o1 = G.run_built(G.build(desc))
     if o1.error is not None: raise o1.error
+    no_failures(o1.log, "in-process run")
     s1 = G.snapshot(o1.result)
     o2 = G.run_built(G.build(desc))
     if o2.error is not None: raise o2.error
     d = G.diff_snapshots(s1, G.snapshot(o2.result))
     require(d is None, "a second fresh in-process run differs from the first: " + str(d))
+    if fresh:
+        f = G.run_fresh(desc)
+        require(f["error"] is None, "in-process run in a pristine process raised: " + str(f["error"]))
+        no_failures(f["log"], "in-process run in a pristine process")
+        d = G.diff_snapshots(s1, f["snapshot"])
+        require(d is None, "the in-process run depends on what the process evaluated before (differs from the same run in a pristine process): " + str(d))
     return s1
 
 def check_config(desc, s0, mode, p, c, t, sched=()):
     o = G.run_built(G.build(desc), mode, p, c, t, sched)
     if o.error is not None: raise o.error
+    no_failures(o.log, f"{mode} run(processes={p}, maxchunksperchild={c}, maxtasksperchunk={t})")
     d = G.diff_snapshots(s0, G.snapshot(o.result))
     require(d is None, f"{mode} run(processes={p}, maxchunksperchild={c}, maxtasksperchunk={t}) differs from the in-process run: {d}",
             schedule=list(sched)[:20])
@@ -85,6 +100,7 @@ def permutation(n, swaps):
 def run_perm(case):
     o = G.run_built(G.build(case["desc"]), "inproc", maxtasksperchunk=case.get("t", 0), to_file=True)
     if o.error is not None: raise o.error
+    no_failures(o.log, "in-process run")
     s0 = G.snapshot(o.result)
     lines = [l for l in o.lines if l.strip()]
     require(len(lines) >= 2 and lines[0].replace(" ", "") == '["version",4]', "log does not start with the version line", head=lines[:2])
@@ -170,9 +186,9 @@ SUBCHECKS = [
         quick=24, thorough=500, quick_shards=4, thorough_shards=6, quick_budget_s=38, thorough_budget_s=780, sample_view=view,
         what="Experiment.run with really spawned workers (processes 1-4, maxchunksperchild 0-3, maxtasksperchunk 0-5) vs in-process run of a fresh twin; second fresh in-process run equals the first"),
     Sub(name="sim", run=run_sim, strategy=sim_cases, nontrivial=nontrivial_cfg, classes=classes, classify=classify,
-        quick=750, thorough=12000, quick_shards=3, thorough_shards=6, quick_budget_s=38, thorough_budget_s=780, sample_view=view,
+        quick=450, thorough=12000, quick_shards=3, thorough_shards=6, quick_budget_s=38, thorough_budget_s=780, sample_view=view,
         what="same call with Multiprocessor replaced by simulated workers whose schedule (chunk->worker assignment, arrival order, retirement) is generated; vs in-process run of a fresh twin"),
     Sub(name="perm", run=run_perm, strategy=perm_cases, nontrivial=nontrivial_perm, classes=classes,
-        quick=600, thorough=12000, quick_shards=1, thorough_shards=4, quick_budget_s=38, thorough_budget_s=780, sample_view=view,
+        quick=450, thorough=12000, quick_shards=1, thorough_shards=4, quick_budget_s=38, thorough_budget_s=780, sample_view=view,
         what="transaction lines of an in-process run permuted (version line first) and decoded: the Result must not change"),
 ]
